@@ -27,9 +27,75 @@ struct RealOut {
     path_and_query: String,
 }
 
+/// query keys with reserved characters: `#[conjure_client]` percent-encodes the key at compile time
+pub const MACRO_KEYS: [&str; 5] = ["page&size", "a=b", "c+d e", "k%41", "\u{e9}/?#"];
+
+use conjure_http::endpoint;
+
+#[conjure_http::conjure_client]
+trait MacroKeys {
+    #[endpoint(method = GET, path = "/m/{p}/x")]
+    fn weird(
+        &self,
+        #[path] p: &str,
+        #[query(name = "page&size")] a: &str,
+        #[query(name = "a=b")] b: &str,
+        #[query(name = "c+d e")] c: &str,
+        #[query(name = "k%41")] d: &str,
+        #[query(name = "\u{e9}/?#")] e: &str,
+    ) -> Result<(), conjure_error::Error>;
+}
+
+#[derive(Clone, Default)]
+struct UriCapture(std::sync::Arc<std::sync::Mutex<Option<http::Uri>>>);
+
+impl conjure_http::client::Client for UriCapture {
+    type BodyWriter = Vec<u8>;
+    type ResponseBody = crate::svc::RemoteBody;
+    fn send(&self, req: http::Request<conjure_http::client::RequestBody<'_, Vec<u8>>>) -> Result<http::Response<crate::svc::RemoteBody>, conjure_error::Error> {
+        *self.0.lock().unwrap() = Some(req.uri().clone());
+        let mut r = http::Response::new(crate::svc::RemoteBody(vec![]));
+        *r.status_mut() = http::StatusCode::NO_CONTENT;
+        Ok(r)
+    }
+}
+
+/// the pushes the macro-derived method performs for these values (raw keys)
+pub fn macro_pushes(p: &str, vals: [&str; 5]) -> Vec<Push> {
+    let mut v = vec![Push::Lit("/m".to_string()), Push::Path(p.to_string()), Push::Lit("/x".to_string())];
+    for (k, x) in MACRO_KEYS.iter().zip(vals) {
+        v.push(Push::Query(k.to_string(), x.to_string()));
+    }
+    v
+}
+
+fn pct_all(s: &str) -> String {
+    let mut out = String::new();
+    for b in s.bytes() {
+        if b.is_ascii_alphanumeric() {
+            out.push(b as char);
+        } else {
+            out.push_str(&format!("%{:02X}", b));
+        }
+    }
+    out
+}
+
 fn run_real(pushes: &[Push], variant: u8) -> Result<RealOut, String> {
     let pushes = pushes.to_vec();
     guarded(move || {
+        let macro_uri = if variant == 9 {
+            use conjure_http::client::Service;
+            let cap = UriCapture::default();
+            let c = MacroKeysClient::new(cap.clone());
+            let vals: Vec<&str> = pushes.iter().filter_map(|p| if let Push::Query(_, v) = p { Some(v.as_str()) } else { None }).collect();
+            let p = pushes.iter().find_map(|p| if let Push::Path(v) = p { Some(v.as_str()) } else { None }).unwrap_or("");
+            c.weird(p, vals[0], vals[1], vals[2], vals[3], vals[4]).expect("macro client call");
+            let u = cap.0.lock().unwrap().clone();
+            u
+        } else {
+            None
+        };
         let mut b = UriBuilder::new();
         for p in &pushes {
             match p {
@@ -54,7 +120,10 @@ fn run_real(pushes: &[Push], variant: u8) -> Result<RealOut, String> {
                 },
             }
         }
-        let uri = b.build();
+        let uri = match macro_uri {
+            Some(u) => u,
+            None => b.build(),
+        };
         let rt = ConjureRuntime::new();
         let mut segs = vec![];
         let mut seg_txt = vec![];
@@ -99,12 +168,15 @@ fn run_real(pushes: &[Push], variant: u8) -> Result<RealOut, String> {
     })
 }
 
-fn op_line(pushes: &[Push]) -> String {
+fn op_line(pushes: &[Push], variant: u8) -> String {
     let mut s = String::from("uri");
     for p in pushes {
         match p {
             Push::Lit(l) => s.push_str(&format!(" L:{}", hex(l.as_bytes()))),
             Push::Path(v) => s.push_str(&format!(" P:{}", hex(v.as_bytes()))),
+            // the macro writes the key percent-encoded (the keys used contain only alphanumerics and characters
+            // every encode set in question escapes)
+            Push::Query(k, v) if variant == 9 => s.push_str(&format!(" Q:{}:{}", hex(pct_all(k).as_bytes()), hex(v.as_bytes()))),
             Push::Query(k, v) => s.push_str(&format!(" Q:{}:{}", hex(k.as_bytes()), hex(v.as_bytes()))),
         }
     }
@@ -117,12 +189,12 @@ fn one(cs: &mut Cases, class: &str, pushes: &[Push], variant: u8, nontrivial: bo
     let note = if note.len() > 300 { format!("{}… ({} bytes)", &note.chars().take(300).collect::<String>(), note.len()) } else { note };
     match r {
         Err(p) => {
-            cs.push(class, op_line(pushes), "panic".into(), true, note);
+            cs.push(class, op_line(pushes, variant), "panic".into(), true, note);
             let key = if p.contains("TooLong") { "build:panic:uri-too-long" } else { "build:panic" };
             cs.fail_last(key, format!("UriBuilder::build panicked: {}", p));
         }
         Ok(out) => {
-            cs.push(class, op_line(pushes), out.line.clone(), nontrivial, note);
+            cs.push(class, op_line(pushes, variant), out.line.clone(), nontrivial, note);
             // property oracle, straight from the statement
             let mut exp_segs: Vec<Option<String>> = vec![];
             let mut exp_pairs: BTreeMap<String, Vec<String>> = BTreeMap::new();
@@ -199,6 +271,12 @@ pub fn cases(seed: u64, tier: Tier) -> Cases {
                 one(&mut cs, name, &t, (i % 5) as u8, true);
             }
         }
+    }
+    // a `#[conjure_client]` method whose query keys contain reserved characters
+    for (i, a) in alpha.iter().enumerate() {
+        let v: String = [*a, 'x', *a].iter().collect();
+        let w = alpha[(i * 7 + 3) % alpha.len()].to_string();
+        one(&mut cs, "macro-client:/m/{p}/x?5 keys", &macro_pushes(&v, [&v, &w, "", "plain", &v]), 9, true);
     }
     // empty values
     for (name, t) in templates("", "") {
